@@ -2,88 +2,110 @@
 (C04 verify and sign side, C18 nonce ranges, C19 hash objects not consumed).
 
 Layering
-  * DssSigScheme.verify is proved for the four concrete scheme classes (it is inherited; `_valid_hash` differs) against
-    spec.fips186: ValueError unless the hash is admissible, the encoding is well formed ('binary': 2*order_bytes octets; 'der':
-    strict DER SEQUENCE of exactly two non-negative INTEGERs -- assumed contract of DerSequence stated with spec.der /
-    spec.fips186.elems_*), 0 < r, s < q, and the key accepts (z, r, s) with z = leftmost order_bytes octets of the digest.
+  * DssSigScheme.verify / sign are proved for the concrete scheme classes (the methods are inherited; `_valid_hash` and
+    `_compute_nonce` differ) against spec.fips186: verify raises ValueError unless the hash is admissible, the encoding is well
+    formed ('binary': 2*order_bytes octets; 'der': strict DER SEQUENCE of exactly two non-negative INTEGERs -- ASSUMED contract of
+    DerSequence stated with spec.der / spec.fips186.elems_*), 0 < r, s < q, and the key accepts (z, r, s) with z = leftmost
+    order_bytes octets of the digest.
   * EccKey._verify == SEC1 4.1.4 over the abstract group (assumed operator contracts of EccPoint: C06, bounded/ec.py);
     DsaKey._verify == FIPS 186-4 4.7 with modpow uninterpreted.  Integer arithmetic: spec.mathint (assumed: C14/C16).
+  * RFC 6979: _bits2int/_int2octets/_bits2octets exact; _compute_nonce == spec.rfc6979.generate_k (HMAC uninterpreted,
+    step h as a tail-recursive definition unfolded by ground facts), result in [1, q-1], no entropy read.
 """
 from vf.pyvc.contracts import Contract, ClassContract
-from .sig_common import common_registry, INT, OINT, HASH
+from vf.pyvc.interp import BuiltinV
+from vf.pyvc.values import PyClassV, Unsupported
+from .sig_common import (common_registry, add_points, add_entropy_contract, draws_const, draws_by_randfunc,
+                         INT, OINT, HASH, OHASH, PT, CURVE, RANDFUNC)
 
 D = 'Crypto.Signature.DSS.'
 ECC = 'Crypto.PublicKey.ECC.'
 DSA = 'Crypto.PublicKey.DSA.'
-PT = 'Crypto.PublicKey._point.EccPoint'
-CURVE = 'Crypto.PublicKey._curve._Curve'
 A = 'Crypto.Util.asn1.'
-F = 'spec.fips186.'
 DICT = 'spec.fips186.DsaDict'
+HMAC = 'abs.HMAC'
 
-SCHEMES = ('DeterministicDsaSigScheme', 'FipsDsaSigScheme', 'FipsEcDsaSigScheme')
+DET, FDSA, FEC = 'DeterministicDsaSigScheme', 'FipsDsaSigScheme', 'FipsEcDsaSigScheme'
+VARIANTS = ((DET, 'ecc'), (DET, 'dsa'), (FEC, 'ecc'), (FDSA, 'dsa'))
 
 
-# ---------------------------------------------------------------- abstract group / keys
-
-def add_points(reg):
-    """documented operator contracts of EccPoint over an abstract group (C06 proves them; bounded/ec.py k_scalar, k_group)"""
-    reg.add(ClassContract(PT, fields={'g_pt': 'int', 'g_curve': 'int'}))
-    reg.add(Contract(PT + '.__mul__', params={'scalar': 'int'}, result='obj:' + PT,
-                     raises={'ValueError': ('iff', 'scalar < 0')},
-                     ensures={'value': 'result.g_pt == spec.fips186.pmul(self.g_pt, int(scalar))', 'curve': 'result.g_curve == self.g_curve',
-                              'fresh': 'result is not self'},
-                     modifies=[], assumed='scalar multiplication of the abstract group; operands unchanged (C06; bounded/ec.py k_scalar)'))
-    reg.add(Contract(PT + '.__add__', params={'point': 'obj:' + PT}, result='obj:' + PT,
-                     raises={'ValueError': ('iff', 'point.g_curve != self.g_curve')},
-                     ensures={'value': 'result.g_pt == spec.fips186.padd(self.g_pt, point.g_pt)', 'curve': 'result.g_curve == self.g_curve',
-                              'fresh': 'result is not self and result is not point'},
-                     modifies=[], assumed='group law of the abstract group; operands unchanged (C06; bounded/ec.py k_group)'))
-    reg.add(Contract(PT + '.x', params={}, result=OINT,
-                     ensures={'value': 'result._value == spec.fips186.px(self.g_pt)'},
-                     modifies=[], assumed='affine x-coordinate, 0 for the point at infinity (C06; bounded/ec.py)'))
-    reg.add(ClassContract(CURVE, fields={'order': OINT, 'G': 'obj:' + PT, 'g_id': 'int'},
-                          valid=['self.order._value >= 2', 'spec.mathint.prime(self.order._value)', 'self.G.g_curve == self.g_id']))
-
+# ---------------------------------------------------------------- keys
 
 ECC_Q = '(self._point.g_pt if self._point is not None else spec.fips186.pmul(self._curve.G.g_pt, self._d._value))'
+# the blinding factor: the next draw of the SYSTEM entropy source in [1, n-1] (C18)
+BLIND = 'sys_range(old(sys_cursor()), 1, %s - 1)'
 
 
 def add_ecc_key(reg):
     add_points(reg)
+    n = 'self._curve.order._value'
     reg.add(ClassContract(ECC + 'EccKey',
                           fields={'_curve': 'obj:' + CURVE, '_point': 'obj:%s|none' % PT, '_d': OINT + '|none'},
                           valid=['self._point is not None or self._d is not None',
                                  'self._point is None or self._point.g_curve == self._curve.g_id',
                                  'self._d is None or (1 <= self._d._value and self._d._value < self._curve.order._value)']))
     reg.add(Contract(ECC + 'EccKey._verify', params={'z': OINT, 'rs': 'tuple(%s,%s)' % (OINT, OINT)},
-                     requires=['0 < rs[0]._value and rs[0]._value < self._curve.order._value',
-                               '0 < rs[1]._value and rs[1]._value < self._curve.order._value'],
+                     requires=['0 < rs[0]._value and rs[0]._value < ' + n, '0 < rs[1]._value and rs[1]._value < ' + n],
                      raises={},
-                     ensures={'sec1_4_1_4': 'result == spec.fips186.ecdsa_valid(self._curve.G.g_pt, old(%s), self._curve.order._value, '
-                                            'z._value, rs[0]._value, rs[1]._value)' % ECC_Q,
+                     ensures={'sec1_4_1_4': 'result == spec.fips186.ecdsa_valid(self._curve.G.g_pt, old(%s), %s, z._value, rs[0]._value, rs[1]._value)' % (ECC_Q, n),
                               'public_point': 'self._point is not None and self._point.g_pt == old(%s) and self._point.g_curve == self._curve.g_id' % ECC_Q},
                      modifies={'self._point': 'obj:' + PT}, result='bool'))
+    b = BLIND % n
+    add_entropy_contract(reg, Contract(ECC + 'EccKey._sign', params={'z': OINT, 'k': OINT},
+                     requires=['self._d is not None', '0 < k._value and k._value < ' + n],
+                     raises={},
+                     ensures={'r': 'result[0]._value == spec.fips186.ecdsa_r(self._curve.G.g_pt, %s, k._value)' % n,
+                              'range': '0 <= result[0]._value and result[0]._value < %s and 0 <= result[1]._value and result[1]._value < %s' % (n, n),
+                              # the value as the code computes it with blinding; equal to k^-1 (z + d r) mod n by modular algebra (P1, not proved here)
+                              's_blinded': 'result[1]._value == (spec.mathint.modinv(%s * k._value, %s) * (%s * z._value + (self._d._value * %s) * result[0]._value)) %% %s' % (b, n, b, b, n)},
+                     modifies=[], result='tuple(%s,%s)' % (OINT, OINT)), draws_const(1, 0))
+
+
+def _eager_int_map(E, st, args, kw):
+    """`map(int, (r, s))` in DsaKey._sign: int() of an Integer is total and pure, so the one-shot iterator yields exactly these
+    values when it is consumed; it is represented as the tuple of them (modelling deviation: a tuple, not an iterator)"""
+    f, xs = args
+    if not (isinstance(f, PyClassV) and f.py is int and isinstance(xs, tuple)):
+        raise Unsupported('map() other than map(int, tuple)')
+    out = []
+    for x in xs:
+        r = E.models.b_int(E, st, [x], {})
+        if len(r) != 1 or r[0][0] != 'val':
+            raise Unsupported('map(int, ...) element conversion is not total')
+        out.append(r[0][2])
+    return [('val', st, tuple(out))]
 
 
 def add_dsa_key(reg):
+    p, q, g = 'self._key.p._value', 'self._key.q._value', 'self._key.g._value'
     reg.add(ClassContract(DICT, fields={'y': OINT, 'g': OINT, 'p': OINT, 'q': OINT, 'x?': OINT}))
     reg.add(ClassContract(DSA + 'DsaKey', fields={'_key': 'obj:' + DICT},
-                          valid=['self._key.q._value >= 2', 'spec.mathint.prime(self._key.q._value)', 'self._key.p._value >= 2']))
+                          valid=['%s >= 2' % q, 'spec.mathint.prime(%s)' % q, '%s >= 2' % p,
+                                 'not hasattr(self._key, "x") or (0 < self._key.x._value and self._key.x._value < %s)' % q]))
     reg.add(Contract(DSA + 'DsaKey._verify', params={'m': OINT, 'sig': 'tuple(%s,%s)' % (OINT, OINT)},
                      raises={},
-                     ensures={'fips186_4_7': 'result == spec.fips186.dsa_valid(self._key.p._value, self._key.q._value, self._key.g._value, '
-                                             'self._key.y._value, m._value, sig[0]._value, sig[1]._value)'},
+                     ensures={'fips186_4_7': 'result == spec.fips186.dsa_valid(%s, %s, %s, self._key.y._value, m._value, sig[0]._value, sig[1]._value)' % (p, q, g)},
                      modifies=[], result='bool'))
+    reg.overrides[DSA[:-1] + '.map'] = BuiltinV('map(int, tuple)', _eager_int_map)
+    b = BLIND % q
+    add_entropy_contract(reg, Contract(DSA + 'DsaKey._sign', params={'m': OINT, 'k': OINT},
+                     raises={'TypeError': ('iff', 'not hasattr(self._key, "x")'),
+                             # FIPS 186-4 B.2 admits k in [1, q-1]; the library refuses k == 1 as well
+                             'ValueError': ('iff', 'hasattr(self._key, "x") and not (1 < k._value and k._value < %s)' % q)},
+                     ensures={'r': 'result[0] == spec.fips186.dsa_r(%s, %s, %s, k._value)' % (p, q, g),
+                              'range': '0 <= result[0] and result[0] < %s and 0 <= result[1] and result[1] < %s' % (q, q),
+                              's_blinded': 'result[1] == (spec.mathint.modinv(%s * k._value, %s) * (%s * m._value + (self._key.x._value * %s) * result[0])) %% %s' % (b, q, b, b, q)},
+                     modifies=[], result='tuple(int,int)'), draws_const(1, 0))
 
 
 # ---------------------------------------------------------------- DER SEQUENCE (assumed: proved by the asn1 area, C13)
 
 def add_der_sequence(reg):
-    ASN1 = 'strict DER SEQUENCE decoding (C13: contracts/asn1.py proves DerObject.decode; the element loop of DerSequence is its author\'s)'
+    ASN1 = 'strict DER SEQUENCE decoding/encoding (C13: contracts/asn1.py proves DerObject; the element loops of DerSequence are its author\'s)'
     reg.add(ClassContract(A + 'DerSequence', fields={'g_der': 'bytes'}))
     reg.add(Contract(A + 'DerSequence.__init__', params={'startSeq': 'none', 'implicit': 'none', 'explicit': 'none'},
-                     modifies=None, assumed=ASN1))
+                     requires=['implicit is None and explicit is None'],
+                     sets={'self._seq': 'startSeq'}, modifies=None, options={'exact': True}, assumed=ASN1))
     reg.add(Contract(A + 'DerSequence.decode',
                      params={'der_encoded': 'bytes', 'strict': 'bool', 'nr_elements': 'none', 'only_ints_expected': 'bool'},
                      requires=['strict', 'nr_elements is None', 'not only_ints_expected'],
@@ -97,39 +119,86 @@ def add_der_sequence(reg):
     reg.add(Contract(A + 'DerSequence.__getitem__', params={'n': 'nat'},
                      requires=['0 <= n and n < spec.fips186.seq_count(self.g_der)', 'spec.fips186.seq_only_nonneg_ints(self.g_der)'],
                      returns='spec.fips186.seq_int(self.g_der, n)', modifies=[], options={'exact': True}, assumed=ASN1))
+    # encoding of a sequence constructed from exactly two non-negative integers (int or Integer)
+    reg.add(Contract(A + 'DerSequence.encode', params={},
+                     requires=['len(self._seq) == 2', 'int(self._seq[0]) >= 0 and int(self._seq[1]) >= 0'],
+                     returns='spec.fips186.der_sig(int(self._seq[0]), int(self._seq[1]))', modifies=None, options={'exact': True},
+                     assumed=ASN1))
+
+
+# ---------------------------------------------------------------- HMAC (assumed: C03)
+
+def add_hmac(reg):
+    reg.add(ClassContract(HMAC, fields={'g_alg': 'int', 'g_key': 'bytes', 'g_data': 'bytes'}, abstract=True))
+    reg.add(Contract('Crypto.Hash.HMAC.new', params={'key': 'bytes', 'msg': 'bytes', 'digestmod': OHASH}, result='obj:' + HMAC,
+                     ensures={'state': 'result.g_alg == digestmod.g_alg and result.g_key == key and result.g_data == msg'},
+                     modifies=[], assumed='HMAC object over the hash of digestmod; digestmod is not modified (C03: contracts of Crypto.Hash.HMAC; bounded/hashes.py)'))
+    reg.add(Contract(HMAC + '.digest', params={'self': 'obj:' + HMAC}, returns='spec.rfc6979.hmac(self.g_alg, self.g_key, self.g_data)',
+                     modifies=[], options={'exact': True}, assumed='HMAC value uninterpreted (C03; bounded/hashes.py)'))
 
 
 # ---------------------------------------------------------------- the scheme objects
 
-def scheme_fields(keytype):
-    return {'_key': 'obj:' + (ECC + 'EccKey' if keytype == 'ecc' else DSA + 'DsaKey'),
-            '_encoding': "enum('binary','der')", '_order': OINT, '_order_bits': 'pos', '_order_bytes': 'pos'}
+def key_type(keytype):
+    return 'obj:' + (ECC + 'EccKey' if keytype == 'ecc' else DSA + 'DsaKey')
 
 
-def scheme_valid(keytype):
-    q = 'self._key._curve.order._value' if keytype == 'ecc' else 'self._key._key.q._value'
-    return ['self._order._value == ' + q]
+def scheme_fields(scheme, keytype, bits=None):
+    f = {'_key': key_type(keytype), '_encoding': "enum('binary','der')", '_order': OINT, '_order_bits': 'pos', '_order_bytes': 'pos'}
+    if bits is not None:
+        # per-value instantiation of the bit length of q (the arithmetic of RFC 6979 2.3.4 is non-linear in it)
+        f['_order_bits'], f['_order_bytes'] = ('const', bits), ('const', (bits - 1) // 8 + 1)
+    if scheme == DET:
+        f['_private_key'] = OINT + '|none'
+    else:
+        f['_randfunc'] = RANDFUNC + '|none'
+    return f
 
 
-VALID_HASH = {'DeterministicDsaSigScheme': 'True'}
+def order_of(keytype, key='self._key'):
+    return (key + '._curve.order._value') if keytype == 'ecc' else (key + '._key.q._value')
+
+
+def scheme_valid(scheme, keytype):
+    v = ['self._order._value == ' + order_of(keytype),
+         'self._order_bits == spec.mathint.size_in_bits(self._order._value)',
+         'self._order_bytes == (self._order_bits - 1) // 8 + 1',
+         # 2^(order_bits - 1) <= order < 2^order_bits <= 2^(8 order_bytes): the defining inequality of the bit length, stated
+         # because bit_length is an uninterpreted symbol in the engine
+         'pow2(self._order_bits - 1) <= self._order._value and self._order._value < pow2(self._order_bits)',
+         'self._order._value < pow2(8 * self._order_bytes)']
+    if scheme == DET:
+        priv = 'self._key._d' if keytype == 'ecc' else 'self._key._key.x'
+        has = 'self._key._d is not None' if keytype == 'ecc' else 'hasattr(self._key._key, "x")'
+        # new(): private_key = key.d / key.x when the key has a private half, else None
+        v.append('(self._private_key is not None) == (%s)' % has)
+        v.append('self._private_key is None or self._private_key._value == %s._value' % priv)
+    return v
+
+
+VALID_HASH = {DET: 'True',
+              FDSA: 'spec.fips186.approved_hash_dsa(msg_hash.oid.g_id)',
+              FEC: 'spec.fips186.approved_hash_ecdsa(msg_hash.oid.g_id)'}
+
+DIGEST = 'spec.rfc8017.Hash(msg_hash.g_alg, msg_hash.g_data)'
+Z = 'spec.fips186.leftmost(%s, self._order_bytes)' % DIGEST
 
 
 def verify_contract(scheme, keytype):
     enc = 'self._encoding, signature, self._order_bytes'
     r, s = 'spec.fips186.sig_r(%s)' % enc, 'spec.fips186.sig_s(%s)' % enc
-    z = 'spec.fips186.leftmost(spec.rfc8017.Hash(msg_hash.g_alg, msg_hash.g_data), self._order_bytes)'
     if keytype == 'ecc':
         key_ok = 'spec.fips186.ecdsa_valid(self._key._curve.G.g_pt, %s, self._order._value, %s, %s, %s)' % (
-            ECC_Q.replace('self.', 'self._key.'), z, r, s)
-        mods = ['self._key._point']
+            ECC_Q.replace('self.', 'self._key.'), Z, r, s)
+        mods = {'self._key._point': 'obj:' + PT}
     else:
         key_ok = ('spec.fips186.dsa_valid(self._key._key.p._value, self._key._key.q._value, self._key._key.g._value, '
-                  'self._key._key.y._value, %s, %s, %s)' % (z, r, s))
+                  'self._key._key.y._value, %s, %s, %s)' % (Z, r, s))
         mods = []
     accept = '(%s) and spec.fips186.sig_enc_ok(%s) and spec.fips186.in_range(%s, %s, self._order._value) and %s' % (
         VALID_HASH[scheme], enc, r, s, key_ok)
     return Contract(D + 'DssSigScheme.verify', self_type='obj:' + D + scheme,
-                    params={'msg_hash': 'obj:' + HASH, 'signature': 'bytes'},
+                    params={'msg_hash': OHASH, 'signature': 'bytes'},
                     raises={'ValueError': ('iff', 'not (%s)' % accept)},
                     ensures={'false': 'result is False'},
                     modifies=mods,
@@ -137,16 +206,115 @@ def verify_contract(scheme, keytype):
                             'spec.fips186.seq_only_nonneg_ints', 'spec.fips186.seq_int'])
 
 
-def registry(scheme='DeterministicDsaSigScheme', keytype='ecc'):
+def det_k(keytype):
+    """RFC 6979 3.2: k as a function of (hash algorithm, private key, digest, q) only"""
+    return ('spec.rfc6979.generate_k(msg_hash.g_alg, msg_hash.digest_size, self._private_key._value, %s, self._order._value, '
+            'self._order_bits, self._order_bytes)' % DIGEST)
+
+
+def nonce_expr(scheme, keytype):
+    if scheme == DET:
+        return det_k(keytype)
+    q = 'self._order._value' if scheme == FDSA else 'self._key._curve.order._value'
+    return ('(sys_range(old(sys_cursor()), 1, %s - 1) if self._randfunc is None else rnd_range(old(rnd_cursor()), 1, %s - 1))' % (q, q))
+
+
+def compute_nonce_contract(scheme, keytype, assumed=None):
+    if scheme == DET:
+        return Contract(D + DET + '._compute_nonce', params={'mhash': OHASH},
+                        requires=['self._private_key is not None',
+                                  '0 < self._private_key._value and self._private_key._value < self._order._value'],
+                        raises={},
+                        ensures={'rfc6979_3_2': 'result._value == ' + det_k(keytype).replace('msg_hash', 'mhash'),
+                                 'range': '0 < result._value and result._value < self._order._value',
+                                 'no_entropy': 'sys_cursor() == old(sys_cursor()) and rnd_cursor() == old(rnd_cursor())'},
+                        modifies=[], result=OINT, assumed=assumed)
+    # C18: one draw in [1, q-1]; from the caller's tape when a randfunc was given (then the system source is not touched)
+    return Contract(D + scheme + '._compute_nonce', params={'msg_hash': OHASH}, raises={},
+                    ensures={'value': 'result._value == ' + nonce_expr(scheme, keytype),
+                             'range': '1 <= result._value and result._value <= %s - 1' % ('self._order._value' if scheme == FDSA else 'self._key._curve.order._value')},
+                    modifies=[], result=OINT)
+
+
+def valid_hash_contract(scheme, keytype):
+    if scheme == DET:
+        return Contract(D + DET + '._valid_hash', params={'msg_hash': OHASH}, returns='True',
+                        ensures={'value': 'result is True'}, modifies=[], options={'exact': True})
+    mods = {'self._key._point': 'obj:' + PT} if scheme == FEC else []
+    ens = {'value': 'result == (%s)' % VALID_HASH[scheme]}
+    if scheme == FEC:
+        ens['public_point'] = ('self._key._point is not None and self._key._point.g_pt == old(%s) and self._key._point.g_curve == self._key._curve.g_id'
+                               % ECC_Q.replace('self.', 'self._key.'))
+    return Contract(D + scheme + '._valid_hash', params={'msg_hash': OHASH}, raises={}, ensures=ens, modifies=mods, result='bool')
+
+
+def blinded_s(B, K, Zv, Dv, R, q):
+    """s as EccKey._sign / DsaKey._sign compute it with the blinding factor B"""
+    return '((spec.mathint.modinv(%s * %s, %s) * (%s * %s + (%s * %s) * %s)) %% %s)' % (B, K, q, B, Zv, Dv, B, R, q)
+
+
+def sign_contract(scheme, keytype):
+    has = 'self._key._d is not None' if keytype == 'ecc' else 'hasattr(self._key._key, "x")'
+    k = nonce_expr(scheme, keytype)
+    q = 'self._order._value'
+    if keytype == 'ecc':
+        r = 'spec.fips186.ecdsa_r(self._key._curve.G.g_pt, %s, %s)' % (q, k)
+        d = 'self._key._d._value'
+        bad_k = 'False'
+    else:
+        r = 'spec.fips186.dsa_r(self._key._key.p._value, %s, self._key._key.g._value, %s)' % (q, k)
+        d = 'self._key._key.x._value'
+        bad_k = '(%s) == 1' % k.replace('old(sys_cursor())', 'sys_cursor()').replace('old(rnd_cursor())', 'rnd_cursor()')   # (entry state) DsaKey._sign refuses k == 1 (FIPS 186-4 B.2 admits it; probability 1/(q-1))
+    # the blinding factor is the next draw of the system source after the nonce (which is a system draw only for FIPS mode without randfunc)
+    blind = ('sys_range(old(sys_cursor()), 1, %s - 1)' % q if scheme == DET else
+             'sys_range(old(sys_cursor()) + (1 if self._randfunc is None else 0), 1, %s - 1)' % q)
+    s_ = blinded_s(blind, k, Z, d, r, q)
+    mods = {'self._key._point': 'obj:' + PT} if scheme == FEC else []
+    return Contract(D + 'DssSigScheme.sign', self_type='obj:' + D + scheme, params={'msg_hash': OHASH},
+                    raises={'TypeError': ('iff', 'not (%s)' % has),
+                            'ValueError': ('iff', '(%s) and (not (%s) or %s)' % (has, VALID_HASH[scheme], bad_k))},
+                    ensures={'encoding': 'result == spec.fips186.encode_sig(self._encoding, %s, %s, self._order_bytes)' % (r, s_),
+                             'length': 'self._encoding == "binary" ==> len(result) == 2 * self._order_bytes',
+                             'caller_tape_only': 'False ==> True' if scheme == DET else
+                                                 'self._randfunc is not None ==> rnd_cursor() == old(rnd_cursor()) + 1'},
+                    modifies=mods, opaque=['spec.rfc6979.generate_k', 'spec.fips186.der_sig'])
+
+
+def helper_contracts(reg, blen=None, bits=None):
+    q, qlen, rl = 'self._order._value', 'spec.mathint.size_in_bits(self._order._value)', 'self._order_bytes'
+    reg.add(Contract(D + DET + '._bits2int', params={'bstr': 'bytes'}, raises={},
+                     ensures={'rfc6979_2_3_2': 'result._value == spec.rfc6979.bits2int(bstr, %s)' % qlen},
+                     modifies=[], result=OINT))
+    reg.add(Contract(D + DET + '._int2octets', params={'int_mod_q': OINT},
+                     # RFC 6979 2.3.3: defined for every 0 <= x < q.  The code asserts 0 < x: _int2octets(0) raises AssertionError
+                     # (FINDING, natively confirmed; reached from sign() when bits2int(H(m)) is 0 or q)
+                     requires=['0 <= int_mod_q._value and int_mod_q._value < ' + q], raises={},
+                     ensures={'rfc6979_2_3_3': 'result == spec.rfc6979.int2octets(int_mod_q._value, %s)' % rl, 'length': 'len(result) == ' + rl},
+                     modifies=[], result='bytes'))
+    # proved per value of (bit length of q, len(bstr)): z1 - q < q needs 2^(qlen-1) <= q and bits2int(b) < 2^qlen, which is
+    # non-linear for symbolic lengths (see units(): the standard (q, hash) size pairs; exhaustive in the data)
+    reg.add(Contract(D + DET + '._bits2octets', params={'bstr': 'bytes' if blen is None else 'bytes[%d]' % blen}, raises={},
+                     ensures={'rfc6979_2_3_4': 'result == spec.rfc6979.bits2octets(bstr, %s, %s, %s)' % (q, qlen, rl), 'length': 'len(result) == ' + rl},
+                     modifies=[], result='bytes', options={'int_lemmas': sorted({8 * blen, bits, bits - 1, abs(8 * blen - bits)}) if blen is not None else []}))
+
+
+def registry(scheme=DET, keytype='ecc', bits=None, blen=None):
     reg = common_registry()
     add_ecc_key(reg)
     add_dsa_key(reg)
     add_der_sequence(reg)
-    extra = {'_private_key': OINT + '|none'} if scheme == 'DeterministicDsaSigScheme' else {'_randfunc': 'any:callable:randfunc|none'}
-    reg.add(ClassContract(D + scheme, fields=dict(scheme_fields(keytype), **extra), valid=scheme_valid(keytype)))
-    reg.add(Contract(D + 'DeterministicDsaSigScheme._valid_hash', params={'msg_hash': 'obj:' + HASH}, returns='True',
-                     ensures={'value': 'result is True'}, modifies=[], options={'exact': True}))
+    add_hmac(reg)
+    bits, blen = (int(bits) if bits else None), (int(blen) if blen else None)
+    reg.add(ClassContract(D + scheme, fields=scheme_fields(scheme, keytype, bits), valid=scheme_valid(scheme, keytype)))
+    reg.add(valid_hash_contract(scheme, keytype))
+    if scheme == DET:
+        reg.add(compute_nonce_contract(scheme, keytype))
+    else:
+        add_entropy_contract(reg, compute_nonce_contract(scheme, keytype), draws_by_randfunc())
+    if scheme == DET:
+        helper_contracts(reg, blen, bits)
     reg.add(verify_contract(scheme, keytype))
+    reg.add(sign_contract(scheme, keytype))
     return reg
 
 
@@ -157,7 +325,7 @@ def units(prop, tier):
     out = []
     out.append(pyvc_unit(prop, 'sig.ecdsa.EccKey._verify', registry, [ECC + 'EccKey._verify']))
     out.append(pyvc_unit(prop, 'sig.dsa.DsaKey._verify', registry, [DSA + 'DsaKey._verify']))
-    for scheme, keytype in (('DeterministicDsaSigScheme', 'ecc'), ('DeterministicDsaSigScheme', 'dsa')):
+    for scheme, keytype in VARIANTS:
         out.append(pyvc_unit(prop, 'sig.dss.verify.%s.%s' % (scheme, keytype),
                              (lambda s=scheme, k=keytype: registry(s, k)), [D + 'DssSigScheme.verify']))
     return out
